@@ -171,6 +171,11 @@ def run(ctx: Ctx):
     r_isosteric(ctx, model)
     r_whittaker(ctx, model)
     r_point(ctx, model)
+    from ..sites import conversions_drop_caches, no_memoisation
+    conversions_drop_caches(ctx, load(ctx.root), "C19", "E-fresh")   # isosteric / Whittaker read pressure_at of converted isotherms
+    ctx.rule("E-fresh: no caching decorator on any function of pygaps.characterisation.")
+    no_memoisation(ctx, load(ctx.root), "C19", "E-fresh", ('pygaps.characterisation.',),
+                   "cached adsorbate constants survive a change of the adsorbate's properties or backend")
 
 
 META = {
